@@ -50,6 +50,8 @@ var PSets = map[string]rlwe.ParametersLiteral{
 	"single":   {LogN: 10, LogQ: []int{40}, LogP: []int{40}, NTTFlag: true},
 	"sparseH":  {LogN: 10, LogQ: []int{55, 45}, LogP: []int{55}, NTTFlag: true, Xs: ring.Ternary{H: 32}, Xe: ring.DiscreteGaussian{Sigma: 8, Bound: 48}},
 	"ci":       {LogN: 10, LogQ: []int{55, 45}, LogP: []int{55}, NTTFlag: true, RingType: ring.ConjugateInvariant},
+	// ternary error and secret of density exactly one half (a dedicated path of the ternary sampler)
+	"ternhalf": {LogN: 10, LogQ: []int{50, 40}, LogP: []int{50}, NTTFlag: true, Xs: ring.Ternary{P: 0.5}, Xe: ring.Ternary{P: 0.5}},
 }
 
 type PSInfo struct {
@@ -154,8 +156,23 @@ func stats(rq *ring.Ring, p ring.Poly) (bits int, stdMilli int) {
 
 func bitlen(x float64) int { return new(big.Int).SetUint64(uint64(math.Round(x))).BitLen() }
 
+// errDist: the declared error distribution as (sigma, bound); a ternary error of density p has sigma = sqrt(p), bound 1
+func errDist(p rlwe.Parameters) ring.DiscreteGaussian {
+	switch x := p.Xe().(type) {
+	case ring.DiscreteGaussian:
+		return x
+	case ring.Ternary:
+		d := x.P
+		if x.H != 0 {
+			d = float64(x.H) / float64(p.N())
+		}
+		return ring.DiscreteGaussian{Sigma: math.Sqrt(d), Bound: 1}
+	}
+	panic("unsupported error distribution")
+}
+
 func (c *ctx) common(lvl int) ev {
-	xe := c.p.Xe().(ring.DiscreteGaussian)
+	xe := errDist(c.p)
 	lgp := 0
 	if c.p.PCount() > 0 {
 		lgp = c.p.PBigInt().BitLen() - 1
@@ -536,7 +553,7 @@ func Main(args []string) int {
 	fs.Parse(args[1:])
 	if args[0] == "psets" {
 		var out []PSInfo
-		for _, name := range []string{"classic", "mixedbig", "threeP", "noP", "single", "sparseH", "ci", "smallq0", "smallq0n"} {
+		for _, name := range []string{"classic", "mixedbig", "threeP", "noP", "single", "sparseH", "ci", "smallq0", "smallq0n", "ternhalf"} {
 			l := PSets[name]
 			out = append(out, PSInfo{name, len(l.LogQ), len(l.LogP)})
 		}
